@@ -29,6 +29,64 @@ CONFIGS = {
 }
 EXPECTED_CRATES = {"searchlite_core", "searchlite_cli", "searchlite_ffi", "searchlite_http", "searchlite_wasm"}
 
+# The `wasmhost` configuration: searchlite-wasm/src/wasm.rs is `cfg(target_arch = "wasm32")` and no wasm32 target is installed, but
+# wasm-bindgen / js-sys / web-sys / wasm-bindgen-futures type-check on the host.  A generated harness crate includes the repository's
+# wasm.rs by `#[path]` (the file itself, not a copy) with the dependency list of searchlite-wasm's wasm32 section, so the module is
+# type-checked and its MIR extracted like any other crate.  Nothing in it is ever executed.
+WASMHOST = "wasmhost"
+WASMHOST_CRATE = "searchlite_wasm_host"
+
+
+def _wasm_harness(repo):
+    """(Re)generate the harness crate for `repo` under CACHE; returns its directory."""
+    d = os.path.join(CACHE, "wasmhost-src-" + hashlib.sha256(os.path.abspath(repo).encode()).hexdigest()[:12])
+    os.makedirs(os.path.join(d, "src"), exist_ok=True)
+    wasm_toml = open(os.path.join(repo, "searchlite-wasm", "Cargo.toml")).read()
+    # dependency section of the wasm32 target, taken from the repository's manifest (so that a changed dependency list is followed)
+    deps = []
+    sect = None
+    for line in wasm_toml.splitlines():
+        st = line.strip()
+        if st.startswith("["):
+            sect = st
+            continue
+        if sect == "[target.'cfg(target_arch = \"wasm32\")'.dependencies]":
+            deps.append(line)
+    deps_txt = "\n".join(deps)
+    # wasm-bindgen-rayon (feature `threads`) needs wasm32 atomics: not part of the harness
+    import re as _re
+    deps_txt = _re.sub(r"(?m)^wasm-bindgen-rayon.*$", "", deps_txt)
+    cargo = """[package]
+name = "searchlite-wasm-host"
+version = "0.0.0"
+edition = "2021"
+
+[lib]
+path = "src/lib.rs"
+
+[features]
+default = []
+vectors = ["searchlite-core/vectors"]
+
+[dependencies]
+anyhow = "1"
+parking_lot = "0.12"
+serde = { version = "1", features = ["derive"] }
+serde_json = "1"
+searchlite-core = { path = "%s", features = ["browser"] }
+%s
+
+[workspace]
+""" % (os.path.join(os.path.abspath(repo), "searchlite-core"), deps_txt)
+    lib = '#[path = "%s"]\nmod wasm;\npub use wasm::*;\n' % os.path.join(os.path.abspath(repo), "searchlite-wasm", "src", "wasm.rs")
+    for name, txt in (("Cargo.toml", cargo), (os.path.join("src", "lib.rs"), lib)):
+        pth = os.path.join(d, name)
+        if not os.path.exists(pth) or open(pth).read() != txt:
+            with open(pth, "w") as fh:
+                fh.write(txt)
+    shutil.copyfile(os.path.join(repo, "Cargo.lock"), os.path.join(d, "Cargo.lock"))
+    return d
+
 SKIP_DIRS = {".git", "target", "node_modules"}
 
 
@@ -110,7 +168,10 @@ def build(config="default", log=sys.stderr, repo=None):
         # cargo's freshness cache would skip the wrapper for unchanged members: drop their fingerprints
         for fp in glob.glob(os.path.join(target, "debug", ".fingerprint", "searchlite*")):
             shutil.rmtree(fp, ignore_errors=True)
-        args, rustflags = CONFIGS[config]
+        if config == WASMHOST:
+            args, rustflags = [], ""
+        else:
+            args, rustflags = CONFIGS[config]
         env = _env()
         env["LD_LIBRARY_PATH"] = os.path.join(nightly_sysroot(), "lib") + ":" + env.get("LD_LIBRARY_PATH", "")
         env["RUSTFLAGS"] = ("-Awarnings " + rustflags).strip()
@@ -120,7 +181,13 @@ def build(config="default", log=sys.stderr, repo=None):
         env.pop("RUSTC_WRAPPER", None)
         t0 = time.time()
         cmd = ["cargo", "+nightly", "check", "--offline", "--workspace"] + args
-        r = subprocess.run(cmd, cwd=repo, env=env, stdout=subprocess.PIPE, stderr=subprocess.STDOUT, text=True)
+        cwd = repo
+        expected = EXPECTED_CRATES
+        if config == WASMHOST:
+            cwd = _wasm_harness(repo)
+            cmd = ["cargo", "+nightly", "check", "--offline"]
+            expected = {WASMHOST_CRATE}
+        r = subprocess.run(cmd, cwd=cwd, env=env, stdout=subprocess.PIPE, stderr=subprocess.STDOUT, text=True)
         if r.returncode != 0:
             print(r.stdout[-6000:], file=log)
             shutil.rmtree(out, ignore_errors=True)
@@ -128,7 +195,7 @@ def build(config="default", log=sys.stderr, repo=None):
         crates = set()
         for f in glob.glob(os.path.join(out, "*.json")):
             crates.add(os.path.basename(f).split("-")[0])
-        missing = EXPECTED_CRATES - crates
+        missing = expected - crates
         if missing:
             shutil.rmtree(out, ignore_errors=True)
             raise RuntimeError("no fresh fact file for crates: %s" % sorted(missing))
